@@ -2,7 +2,7 @@
 From Coq Require Import NArith List.
 From DV Require Import Base.Outcome Base.Bytes Base.Names Base.PName C02.Gen C02.Model
   C02.ProofsBasic C02.ProofsRun C02.ProofsName C02.ProofsComp C02.ProofsStatic C02.ProofsHash C02.ProofsTop
-  C02.ProofsLayout C02.ProofsRead C02.ProofsWrite C02.ProofsBuild C02.ProofsTotal.
+  C02.ProofsLayout C02.ProofsRead C02.ProofsWrite C02.ProofsBuild C02.ProofsTotal C02.ProofsX.
 Import ListNotations.
 Local Open Scope N_scope.
 
@@ -136,3 +136,36 @@ Theorem C02_conversions_zero_the_right_counters : forall c s a k s' a' ws,
   b_sec s' = k /\ Forall (fun w => w = RNone) ws /\ CountInv s' a' /\ acc_upto a a' k.
 Proof. exact conv_counts. Qed.
 Print Assumptions C02_conversions_zero_the_right_counters.
+
+(* Conversions, builder(), start_answer, start_error and request_axfr are
+   compositions of the primitive operations (the model computes the list they
+   perform from the current state): whatever mix of them built the message,
+   it reads back as the accepted pushes. *)
+Theorem C02_build_parse_composite : forall c xs s0 s a ws lost,
+  init c = Some s0 -> Forall wf_xop xs -> xrun c s0 acc0 xs = (s, a, ws, lost) ->
+  exists a', rd_message (msg_of s) a = Ok a' /\ acc_eqb a' a = true.
+Proof. exact xbuild_parse. Qed.
+Print Assumptions C02_build_parse_composite.
+
+(* The header setters (offsets, bit positions, masks, shift: T1) realise the
+   RFC 1035 header layout. *)
+Theorem C02_header_setters_layout : forall p0 p1 p2 p3 i0 i1 w2 w3,
+  p2 < 256 -> p3 < 256 -> i0 < 256 -> i1 < 256 -> w2 < 256 -> w3 < 256 ->
+  hdr_apply [p0; p1; p2; p3] (fields_of_octets [i0; i1; w2; w3]) = [i0; i1; w2; w3].
+Proof. exact header_setters_layout. Qed.
+Print Assumptions C02_header_setters_layout.
+
+(* StreamTarget: message coordinates = inner buffer coordinates minus the prefix (T1). *)
+Theorem C02_stream_coordinates : forall x (buf : bytes) len,
+  length (be16 x) = N.to_nat stream_prefix_len /\
+  skipn (N.to_nat stream_prefix_len) (be16 x ++ buf) = buf /\
+  skipn (N.to_nat stream_prefix_len) (firstn (N.to_nat (len + stream_prefix_len)) (be16 x ++ buf)) = firstn (N.to_nat len) buf.
+Proof. exact stream_coordinates. Qed.
+Print Assumptions C02_stream_coordinates.
+
+(* StaticCompressor::insert: at most 24 entries, positions below 0x4000 (T1). *)
+Theorem C02_static_insert_bound : forall pos es es',
+  (length es <= 24)%nat -> static_insert pos es = Some es' ->
+  (length es' <= 24)%nat /\ pos < 16384 /\ es' = es ++ [pos].
+Proof. exact static_insert_bound. Qed.
+Print Assumptions C02_static_insert_bound.
